@@ -266,6 +266,27 @@ def self_closing_acknowledged(ctx):
                       {"mode": mode, "name": nm})
 
 
+def solidus_check_after_reprocessing(ctx):
+    """R16.11: whether a start tag's self-closing flag was acknowledged is known only when the token has been handled by the
+    *last* insertion mode it is handed to (`<meta charset=x/>` travels initial -> before html -> before head -> in head, each
+    handing the token on).  The non-void-element-with-trailing-solidus test therefore stands after the reprocessing loop, not
+    inside it: inside, every hand-over of a conforming void element records the error."""
+    r = ctx.r
+    r.rule("R16.11", "the trailing-solidus error is decided after the token's last reprocessing", floor=1)
+    f = ctx.repo.func("html5parser.py", "HTMLParser.mainLoop")
+    sites = [c for c in ast.walk(f.node) if isinstance(c, ast.Call) and norm(c.func).endswith("parseError") and c.args and
+             ctx.ce.try_eval(c.args[0], f.module) == "non-void-element-with-trailing-solidus"]
+    if len(sites) != 1:
+        r.idiom("R16.11", False, "solidus-check-position", f.where, "the trailing-solidus error site of mainLoop was not found (%d sites)" % len(sites))
+        return
+    whiles = [w for w in ast.walk(f.node) if isinstance(w, ast.While) and any(x is sites[0] for x in ast.walk(w)) and "new_token" in norm(w.test)]
+    r.check("R16.11", not whiles, "solidus-check-position", "html5parser.py:%d" % sites[0].lineno,
+            "the non-void-element-with-trailing-solidus test stands inside the reprocessing loop (`while %s`): a self-closing void start tag that "
+            "is handed on between insertion modes -- `<!DOCTYPE html><meta charset=\"utf-8\"/>` with html and head implied -- is reported before "
+            "the mode that acknowledges the flag has seen it: a conforming document records errors and strict mode raises" % (
+                norm(whiles[0].test)[:40] if whiles else ""))
+
+
 def character_reference_errors(ctx):
     """R16.10: "conforming documents record no errors", for text after `&`.  The standard's tokenizer reports (a) a named
     reference that is decoded although its `;` is missing, (b) `&name;` whose name is unknown -- and nothing else: `AT&T`,
@@ -350,6 +371,7 @@ def run(ctx):
     unconditional_errors(ctx)
     self_closing_acknowledged(ctx)
     character_reference_errors(ctx)
+    solidus_check_after_reprocessing(ctx)
 
     # strict <=> non-strict across an encoding restart: the restart (except _ReparseException: reset(); mainLoop()) forgets
     # the errors of the abandoned pass; strict mode must then not have raised for them (or the restart must keep them)
